@@ -1,0 +1,26 @@
+//go:build verif
+
+package mailbox
+
+import "sync/atomic"
+
+// VerifState is a read-only snapshot for the verification harness.
+type VerifState struct {
+	Processing bool
+	Paused     bool
+	Num        int32
+	SystemNum  int32
+	UserLen    int64
+	SystemLen  int64
+}
+
+func (m *UnboundedMailbox) VerifState() VerifState {
+	return VerifState{
+		Processing: atomic.LoadUint32(&m.status) == processing,
+		Paused:     atomic.LoadUint32(&m.paused) == 1,
+		Num:        atomic.LoadInt32(&m.num),
+		SystemNum:  atomic.LoadInt32(&m.systemNum),
+		UserLen:    m.buffer.Length(),
+		SystemLen:  m.systemBuffer.Length(),
+	}
+}
